@@ -124,13 +124,16 @@ func (L *Loader) verifyFuncAuto(fn *ssa.Function, spec *FuncSpec, disabled map[s
 	}
 	if spec != nil {
 		env := e.baseEnv(fr0, st)
-		for _, r := range spec.Requires {
+		for _, r := range append(append([]Clause{}, spec.Physical...), spec.Requires...) {
 			t, err := env.evalBool(r.E)
 			if err != nil {
 				e.errs = append(e.errs, fmt.Sprintf("%s: %v", r.Line, err))
 				continue
 			}
 			e.assume(t)
+		}
+		for _, r := range spec.Physical {
+			e.flag("physical-assumption: " + r.Src)
 		}
 		if len(spec.Requires) > 0 {
 			e.cover("requires", "true", spec.File)
@@ -333,6 +336,9 @@ func (env *SpecEnv) locOf(x *SExpr) (keys []string, ref string, err error) {
 	if T, ok := env.typeClause(x); ok {
 		return e.keysOfType(T, false), "*", nil
 	}
+	if x.Op == "call" && x.Args[0].Op == "id" && x.Args[0].Tok == "ghost" && len(x.Args) == 2 {
+		return []string{"X:" + x.Args[1].String()}, "*", nil
+	}
 	switch x.Op {
 	case "sel":
 		if _, ok := e.L.specs.Ghosts[x.Tok]; ok {
@@ -381,6 +387,9 @@ func (env *SpecEnv) locOf(x *SExpr) (keys []string, ref string, err error) {
 			return e.keysOfType(pt.Elem(), false), a.S, nil
 		}
 	case "id":
+		if _, ok := e.L.specs.GhostVars[x.Tok]; ok {
+			return []string{"X:" + x.Tok}, "", nil
+		}
 		// a package-level variable
 		if env.pkg != nil {
 			if v, ok := env.pkg.Scope().Lookup(x.Tok).(*types.Var); ok {
